@@ -81,7 +81,7 @@ def gen_program(r, maxsteps=9, maxh=6, read_bias=0.2, assign_bias=0.2):
         k += l
     steps = [["new", ["f8" if flt else "i8", rows]]]
     V = (lambda x: [x, 1]) if flt else (lambda x: x)
-    opts = {"via0": r.choice(RVIAS), "spelling": r.choice(["plain", "plain", "tuple", "numpy", "numpy32"])}
+    opts = {"via0": r.choice(RVIAS), "spelling": r.choice(["plain", "plain", "tuple", "numpy", "numpy32", "pylist"])}
     objs = []
     rec = []
     res = exec_heap.step(objs, steps[0], opts)
